@@ -415,6 +415,10 @@ def job_rescale(job, n, frame):
     job.prove(f"{tag}/reach", res[0].pc if res else [T.b_const(False)], expect="sat")
 
 
+# concrete replays run on the real code when the changed code uses something the engine does not model (harness.finish)
+FALLBACK = [(replay_wrapper, {}), (replay_wrapper, {"frame": True}), (replay_wrapper, {"descending": True}), (replay_wrapper, {"cols": list(SHORT)}), (replay_rescale, {}), (replay_rescale, {"frame": False}), (replay_columns, {})]
+
+
 def jobs(tier):
     ns = (3,) if tier == "quick" else (3, 4, 5)
     out = []
